@@ -323,6 +323,8 @@ class StmtMixin:
 
     def write(self, base_id: Node, idx: Node, value: Node, st: St, fr, site, aug=None):
         base = self.res(base_id, st)
+        if idx.op in ("Call", "Subscript") and self._mask_of_index(idx) is not None and base.op not in ("Dict", "List"):
+            idx = self._mask_of_index(idx)
         ik = self.const_key(idx)
         if base.op == "Dict" and ik is not self.NOKEY and aug is None:
             new = self.dict_set(base, ik, value, site)
